@@ -307,7 +307,8 @@ def reservoir_neighbours(item):
         else:
             new = repr(x * 0.9)
         out.append((f'{ident}~{parts[0]}', text.rstrip('\n') + f'\n{parts[0]}, {new}\n'))
-    return out
+    resnames = {p.Name.strip() for p in m.reserv.ParameterDict.values()}
+    return [(nid, ntext, nid.split('~', 1)[1] in resnames) for nid, ntext in out]
 
 
 class InjectedFault(ArithmeticError):
@@ -542,7 +543,9 @@ def run(tier: str, only_key: dict | None = None) -> int:
                             'example_ITC|v1') if i in texts]
     for ident, lst in zip(nb_bases, sim.call_in_pool('harness.c08:reservoir_neighbours', [(i, texts[i]) for i in nb_bases])):
         rng.shuffle(lst)
-        for nid, ntext in lst[: (6 if tier == 'quick' else len(lst))]:
+        # quick tier: up to six figures of the reservoir module and up to four of the other modules per base
+        chosen = ([x for x in lst if x[2]][:6] + [x for x in lst if not x[2]][:4]) if tier == 'quick' else lst
+        for nid, ntext, _ in chosen:
             texts[nid] = ntext
             seqs.append((f'alone:{nid}', [(nid, ntext)]))
             seqs.append((f'after:{nid}', [(ident, texts[ident]), (nid, ntext)]))
